@@ -10,6 +10,8 @@ from .values import Sym, Native, Obj, unbox, z3str, z3int
 
 def elem_term(v, sort):
     v = unbox(v)
+    if hasattr(v, 'pyvc_term'):
+        return v.pyvc_term
     if sort == z3.StringSort():
         return z3str(v)
     return z3int(v)
@@ -91,6 +93,8 @@ class SymSet:
             return SymSet(z3.SetIntersect(a, b), self.sort)
         if isinstance(op, ast.Sub):
             return SymSet(z3.SetDifference(a, b), self.sort)
+        if isinstance(op, ast.BitXor):
+            return SymSet(z3.SetUnion(z3.SetDifference(a, b), z3.SetDifference(b, a)), self.sort)
         return NotImplemented
 
     def pyvc_eq(self, it, other):
